@@ -65,13 +65,15 @@ def mix (a b s : Nat) : Nat :=
   y ^^^ (y >>> 13)
 
 /-- partition of a large case: 0 ids ascending in `k` contiguous blocks, 1 blocks of
-4096 cycling through the ids, 2 random, 3 stripes, else blocks of 8192 ascending. -/
+4096 cycling through the ids, 2 random, 3 stripes, 5 random among the ids 0, 1, 63, 64, 65,
+127, … (collide modulo 64), else blocks of 8192 ascending. -/
 def lpart (pm k n seed i : Nat) : Nat :=
   match pm with
   | 0 => i * k / n
   | 1 => (i / 4096) % k
   | 2 => mix i 1 seed % k
   | 3 => i % k
+  | 5 => [0, 1, 63, 64, 65, 127, 128, 129, 191, 192, 255, 256].getD (mix i 1 seed % 12) 0
   | _ => min (i / 8192) (k - 1)
 
 /-- vertex weights of a large cut case. -/
@@ -79,6 +81,7 @@ def lweight (wm seed i : Nat) : Int :=
   match wm with
   | 0 => 1
   | 1 => Int.ofNat (1 + mix i 2 seed % 7)
+  | 3 => Int.ofNat (mix i 2 seed % 4)          -- a quarter of the weights are zero
   | _ => Int.ofNat (1 + mix i 3 seed % 1048576)
 
 /-- row `i` of a large sparse matrix: candidates `i-s, i-1, i+1, i+s` (band of
@@ -88,9 +91,10 @@ def lrow (gk s em n seed i : Nat) : Row :=
   let m := if em = 0 then 9 else 2147483648
   let cand := (if i ≥ s then [i - s] else []) ++ (if i ≥ 1 then [i - 1] else []) ++
     (if i + 1 < n then [i + 1] else []) ++ (if i + s < n then [i + s] else [])
-  if gk = 0 then cand.map fun j => (j, Int.ofNat (1 + mix (min i j) (max i j) seed % m))
-  else (cand.filter fun j => mix i j (seed + 7) % 4 != 0).map fun j =>
-    (j, Int.ofNat (1 + mix i j seed % m))
+  -- edge-weight mode 2: values 0..9, explicit zeros are stored
+  let wt := fun (x : Nat) => if em = 2 then Int.ofNat (x % 10) else Int.ofNat (1 + x % m)
+  if gk = 0 then cand.map fun j => (j, wt (mix (min i j) (max i j) seed))
+  else (cand.filter fun j => mix i j (seed + 7) % 4 != 0).map fun j => (j, wt (mix i j seed))
 
 /-- weights of a large imbalance case. -/
 def limbWeight (wm n seed i : Nat) : Int :=
@@ -98,6 +102,7 @@ def limbWeight (wm n seed i : Nat) : Int :=
   | 0 => 1
   | 1 => Int.ofNat (mix i 2 seed % 100)
   | 2 => Int.ofNat (1073741824 + mix i 3 seed % 2147483648)
+  | 4 => Int.ofNat (mix i 2 seed % 4)
   | _ => Int.ofNat (2305843009213693952 / n - mix i 4 seed % 1000)
 
 def imbLine (k : Nat) (p : List Nat) (ws ts : List Int) : String :=
@@ -115,52 +120,88 @@ def imbLine (k : Nat) (p : List Nat) (ws ts : List Int) : String :=
     | none => "panic(assert)"
   s!"loads={loads} max={mx} imb={imb} tgt={tgt}"
 
-def lgridLine (t : Topo) (pm k wm seed : Nat) : String :=
+/-- `(edge cut generic, lambda generic, edge cut specialised, lambda specialised)` of a
+large grid case; the last two on the sorted lattice rows. -/
+def lgridVals (t : Topo) (pm k wm seed : Nat) : Int × Int × Int × Int :=
   let n := t.len
   let p : Array Nat := (Array.range n).map (lpart pm k n seed)
   let ws : Array Int := (Array.range n).map (lweight wm seed)
   let rows : Array Row := (Array.range n).map (latticeRows t)
   let rowf := fun v => rows.getD v []
-  let eg := edgeCutTopoA t p
-  let lg := lambdaRowsA n (fun v => (t.nbrs v).map (·.1)) p ws
-  let ce := edgeCutSprsRowsA n rowf p
-  let cl := lambdaRowsA n (fun v => (rowf v).map (·.1)) p ws
+  (edgeCutTopoA t p, lambdaRowsA n (fun v => (t.nbrs v).map (·.1)) p ws,
+   edgeCutSprsRowsA n rowf p, lambdaRowsA n (fun v => (rowf v).map (·.1)) p ws)
+
+def lgridLine (t : Topo) (pm k wm seed : Nat) : String :=
+  let (eg, lg, ce, cl) := lgridVals t pm k wm seed
   s!"eg={eg} lg={lg} ce={ce} cl={cl}"
+
+/-- `(edge cut generic, edge cut specialised, lambda)` of a large CSR case. -/
+def lcsrVals (n gk s em pm k wm seed : Nat) : Int × Int × Int :=
+  let rows : Array Row := (Array.range n).map (lrow gk s em n seed)
+  let t : Topo := ⟨n, fun v => rows.getD v []⟩
+  let p : Array Nat := (Array.range n).map (lpart pm k n seed)
+  let ws : Array Int := (Array.range n).map (lweight wm seed)
+  (edgeCutTopoA t p, edgeCutSprsRowsA n t.nbrs p, lambdaRowsA n (fun v => (t.nbrs v).map (·.1)) p ws)
+
+/-- parameters of the `j`-th input of a calling-context op (`c16.rs: ctx_*`). -/
+def ctxK (j : Nat) : Nat := [2, 3, 64, 257, 65, 300].getD (j % 6) 2
+
+def ctxCsr (seed j : Nat) : String :=
+  let n := 1500 + mix j 11 seed % 3000
+  let (eg, _, lg) := lcsrVals n (j % 2) (2 + mix j 12 seed % 200) (if j % 3 = 0 then 2 else 0)
+    (j % 6) (ctxK j) (if j % 2 = 0 then 1 else 3) (mix j 13 seed)
+  s!"{eg}:{lg}"
+
+def ctxGrid (seed j : Nat) : String :=
+  let a := mix j 14 seed
+  let b := mix j 15 seed
+  let c := mix j 16 seed
+  let t := if j % 2 = 0 then topo2 (20 + a % 60) (20 + b % 60) else topo3 (5 + a % 12) (5 + b % 12) (5 + c % 12)
+  let (eg, lg, _, _) := lgridVals t (j % 6) (ctxK j) (if j % 2 = 0 then 1 else 3) (mix j 13 seed)
+  s!"{eg}:{lg}"
+
+def ctxImb (seed j : Nat) : String :=
+  let n := 2000 + mix j 11 seed % 5000
+  let k := ctxK j
+  let sj := mix j 13 seed
+  let p := (List.range n).map (lpart (j % 6) k n sj)
+  let ws := (List.range n).map (limbWeight ([1, 2, 3, 4].getD (j % 4) 1) n sj)
+  let mx := match maxImbalance? k p ws with
+    | some x => toString x
+    | none => "panic(assert)"
+  let imb := match imbalanceWith floatArith k p ws with
+    | some x => toHex x.toBits.toNat
+    | none => "panic(assert)"
+  s!"{mx}:{imb}"
 
 def parseNats (toks : List String) : Option (List Nat) := toks.mapM parseNat?
 
 def handleLarge (toks : List String) : Option String :=
   match toks with
-  | "lcsr" :: rest =>
+  | "lcsr" :: rest | "pcsr" :: rest =>
     match parseNats rest with
     | some [n, gk, s, em, off, pm, k, wm, seed] =>
       if s < 2 ∨ k = 0 ∨ n = 0 then some "bad-op" else
-      let rows : Array Row := (Array.range n).map (lrow gk s em n seed)
-      let t : Topo := ⟨n, fun v => rows.getD v []⟩
-      let p : Array Nat := (Array.range n).map (lpart pm k n seed)
-      let ws : Array Int := (Array.range n).map (lweight wm seed)
-      let eg := edgeCutTopoA t p
-      let lg := lambdaRowsA n (fun v => (t.nbrs v).map (·.1)) p ws
+      let (eg, es, lg) := lcsrVals n gk s em pm k wm seed
       -- the rows are valid (strictly increasing, in range) and the partition covers the
       -- vertices: the specialisation can only refuse a non-zero-based `indptr`
       if off > 0 ∧ !Cfg.current.proper then
         some s!"eg={eg} es=panic(slice) lg={lg} ls=panic(slice)"
       else
-        let es := edgeCutSprsRowsA n t.nbrs p
         some s!"eg={eg} es={es} lg={lg} ls={lg}"
     | _ => some "bad-op"
-  | "lgrid2" :: rest =>
+  | "lgrid2" :: rest | "pgrid2" :: rest =>
     match parseNats rest with
     | some [w, h, pm, k, wm, seed] =>
       if w = 0 ∨ h = 0 ∨ k = 0 then some "bad-op" else some (lgridLine (topo2 w h) pm k wm seed)
     | _ => some "bad-op"
-  | "lgrid3" :: rest =>
+  | "lgrid3" :: rest | "pgrid3" :: rest =>
     match parseNats rest with
     | some [w, h, d, pm, k, wm, seed] =>
       if w = 0 ∨ h = 0 ∨ d = 0 ∨ k = 0 then some "bad-op"
       else some (lgridLine (topo3 w h d) pm k wm seed)
     | _ => some "bad-op"
-  | "limb" :: rest =>
+  | "limb" :: rest | "pimb" :: rest =>
     match parseNats rest with
     | some [n, k, pm, wm, seed] =>
       if k = 0 ∨ n = 0 then some "bad-op" else
@@ -169,6 +210,33 @@ def handleLarge (toks : List String) : Option String :=
       let ts := (List.range k).map fun j => Int.ofNat (mix j 5 seed % 1000)
       some (imbLine k p ws ts)
     | _ => some "bad-op"
+  | ["fimb", n, k, seed] =>
+    match parseNat? n, parseNat? k, parseNat? seed with
+    | some n, some k, some seed =>
+      if k = 0 ∨ n = 0 then some "bad-op" else
+      let p := (List.range n).map (lpart 2 k n seed)
+      let ws := (List.range n).map (limbWeight 1 n seed)
+      let mx := match maxImbalance? k p ws with
+        | some x => toString x
+        | none => "panic(assert)"
+      let imb := match imbalanceWith floatArith k p ws with
+        | some x => toHex x.toBits.toNat
+        | none => "panic(assert)"
+      some s!"max={mx} imb={imb}"
+    | _, _, _ => some "bad-op"
+  | ["cctx", kind, m, seed] =>
+    match parseNat? m, parseNat? seed with
+    | some m, some seed =>
+      if m > 64 then some "bad-op" else
+      let f := match kind with
+        | "csr" => some (ctxCsr seed)
+        | "grid" => some (ctxGrid seed)
+        | "imb" => some (ctxImb seed)
+        | _ => none
+      match f with
+      | some f => some (" ".intercalate ((List.range m).map f))
+      | none => some "bad-op"
+    | _, _ => some "bad-op"
   | _ => none
 
 def handle (toks : List String) : String :=
